@@ -80,6 +80,7 @@ def gen_case(rng, malformed=False, maxops=40):
     ids = []            # predicted ids of the segments present
     next_explicit = [rng.choice([0, 1, 3, 10])]
     explicit_low = rng.random() < 0.25
+    junk = rng.choice([None, ""])        # one kind of missing group id per history (the model does not tell them apart)
     ops = []
 
     def pick_group(t):
@@ -182,10 +183,12 @@ def gen_case(rng, malformed=False, maxops=40):
         elif r < 0.74:
             g = rng.choice(USER_GROUPS + (DEFAULTS if default_named or malformed else []))
             if bad:
-                g = rng.choice([None, "", "9x"])
+                g = rng.choice([junk, junk, "9x"])
             ops.append({"op": "addSegmentGroup", "group_id": g})
         elif r < 0.77:
             g = rng.choice(USER_GROUPS)
+            if bad and rng.random() < 0.3:
+                g = junk
             ops.append({"op": "addUnbranchedSegmentGroup", "group_id": g})
         elif r < 0.79:
             names = rng.choice([["all", "soma_group"], ["all", "dendrite_group"], ["axon_group"], ["all"], [],
@@ -643,6 +646,10 @@ CORPUS = [
     {"ops": [_seg(), _seg(parent=0, group_id="g1", seg_type=None)]},
     {"ops": [{"op": "addUnbranched", "npoints": 3, "parent": None, "frac4": 4, "group_id": None,
               "use_convention": True, "seg_type": "soma", "reorder": True, "optimise": True}]},
+    # add_segment_group without an id: morphology.add() does not append a second equal (empty) group
+    {"ops": [_seg(), {"op": "addSegmentGroup", "group_id": ""}, {"op": "addSegmentGroup", "group_id": ""},
+             {"op": "addUnbranchedSegmentGroup", "group_id": ""}, {"op": "addUnbranchedSegmentGroup", "group_id": ""},
+             _seg(parent=0, group_id="g0", optimise=False), {"op": "optimise"}]},
     # bad quantity accepted at build time (validate=False), refused by validate and the schema
     {"ops": [BASIC[0], BASIC[1], {"op": "addMembrane", "kind": "SpecificCapacitance", "value": "kilo", "group": "all", "via": "set"}, _seg()]},
 ]
